@@ -1039,15 +1039,16 @@ fiSIntDivide(FiSInt a,FiSInt b,FiSInt *  r0,FiSInt * r1)
 FiSInt
 fiSIntGcd(FiSInt a,FiSInt b)
 {
-	if (a < 0) a = -a;
-	if (b < 0) b = -b;
+	/* Work on the magnitudes as unsigned values: -LONG_MIN is not a FiSInt. */
+	unsigned long ua = (a < 0) ? -(unsigned long) a : (unsigned long) a;
+	unsigned long ub = (b < 0) ? -(unsigned long) b : (unsigned long) b;
 
-	while (b != 0) {
-		FiSInt t = a;
-		a = b;
-		b = t % b;
+	while (ub != 0) {
+		unsigned long t = ua;
+		ua = ub;
+		ub = t % ub;
 	}
-	return a;
+	return (FiSInt) ua;
 }
 
 FiSInt	
